@@ -214,6 +214,43 @@ def storedOK (t : IntTy) (π : Policy) (stored : Int) (r : Result) : Bool :=
   decide (t.cmin ≤ stored) && decide (stored ≤ t.cmax) &&
   (!(r.cls == .nan && π.hasNan) || t.isNan π stored)
 
+/-! ## conversions from GMP integers / rationals and from binary floating point -/
+section conv
+open Result
+
+/-- `assign_signed_int_mpz` / `assign_unsigned_int_mpz`, by their effect: a range test on the value
+(the code tests `fits_slong_p` / the limb count first; with `check_overflow` the outcome is this) -/
+def assignMpz (t : IntTy) (π : Policy) (to0 v : Int) (dir : Dir) : Int × Result :=
+  if π.checkOverflow && v < t.emin π then setNegOverflow t π to0 dir
+  else if π.checkOverflow && v > t.emax π then setPosOverflow t π to0 dir
+  else (v, V_EQ)
+
+/-- `assign_int_mpq` (canonical rational `n / d`, `d > 0`) -/
+def assignMpq (t : IntTy) (π : Policy) (to0 n d : Int) (dir : Dir) : Int × Result :=
+  let q := n.tdiv d
+  let (to, r) := assignMpz t π to0 q dir
+  if r != V_EQ then (to, r)
+  else if dir.notRequested then (to, V_LGE)
+  else
+    let rem := n.tmod d
+    if rem < 0 then roundLt t π to dir
+    else if rem > 0 then roundGt t π to dir
+    else (to, V_EQ)
+
+/-- an integer rounded up (toward +∞) to `p` significant bits: its image under conversion to a binary
+floating-point format with a `p`-bit significand in the upward rounding mode -/
+def fpUp (p : Nat) (m : Int) : Int :=
+  let a := m.natAbs
+  if a == 0 then 0
+  else
+    let bl := a.log2 + 1
+    if bl ≤ p then m
+    else
+      let k := bl - p
+      if m > 0 then -((-m) / pow2 k) * pow2 k else -(((a : Int) / pow2 k) * pow2 k)
+
+end conv
+
 /-! ## the concrete types of this platform and the policies of the library (witnesses, examples;
 the driver reads the actual constants from the harness's `cfg` lines) -/
 namespace IntTy
